@@ -174,7 +174,9 @@ func runC05(rc *RunCtx, faulty bool) *simkit.Violation {
 	for _, e := range dt.Result.(core.BundleDiff).Entries {
 		got = append(got, de{e.Type.String(), e.Name})
 	}
-	sort.Slice(got, func(i, j int) bool { return got[i].name < got[j].name || (got[i].name == got[j].name && got[i].typ < got[j].typ) })
+	sort.Slice(got, func(i, j int) bool {
+		return got[i].name < got[j].name || (got[i].name == got[j].name && got[i].typ < got[j].typ)
+	})
 	if fmt.Sprint(got) != fmt.Sprint(want) {
 		return Viol(prop, "diff-wrong", "Diff", "", "Diff reports %v, the bundles differ by %v", got, want)
 	}
